@@ -133,6 +133,28 @@ def run_case(case, ctx):
         return
     if f >= 1.0 and sorted(sel) != list(range(nfound)):
         ctx.fail("fraction 1.0 but only %s of %d matches selected" % (sel, nfound), witness=w)
+    # which atom of a match plays which role. The property speaks of "the atoms that occur only in the search pattern": that is
+    # decided by where the atoms *are*, not by the order in which the search happened to list them. A found match over the atoms
+    # of a planted copy whose listing differs from the planted correspondence is accepted as it is only if the pattern, re-listed
+    # that way, is a proper rigid image of itself within a tolerance or two (a symmetry, exact or within the tolerance); if it
+    # clearly is not (mirror twins exchanged: several tolerances off), the roles are those of the planted correspondence.
+    ppos_ = np.asarray(pat["positions"], float)
+    planted_by_set = {frozenset(g): g for g in built["planted"]}
+    if len(ppos_) >= 3:
+        found = [tuple(m) for m in found]
+        for k, m in enumerate(list(found)):
+            g = planted_by_set.get(frozenset(m))
+            if g is None or list(g) == list(m) or len(set(m)) != len(m):
+                continue
+            pi = [g.index(a) for a in m]             # found slot j holds the atom the planted copy has in slot pi[j]
+            if any(pat["elements"][pi[j]] != pat["elements"][j] for j in range(len(pi))):
+                continue
+            from vmon.oracle import geometry as _G
+            mx = _G.kabsch(ppos_, ppos_[pi])[3]
+            st.count("matches_listed_in_another_order_than_planted")
+            if mx > 4.0 * atol + 0.05:
+                st.count("roles_taken_from_the_planted_copy_because_the_listing_is_no_rigid_image")
+                found[k] = tuple(g)
     shared = replcase.shared_pairs(pat, rep)          # replacement index -> search index
     shared_search = set() if case["replace_all"] else set(shared.values())
     shared_rep = set() if case["replace_all"] else set(shared.keys())
